@@ -21,7 +21,7 @@ import sys
 import vlib as v
 
 SITES = ["host-udp", "host-udpmux", "host-tcpmux", "srflx-own", "srflx-mux", "srflx-mapped", "relay"]
-FAULTS = ["none", "listen-error", "dup"]
+FAULTS = ["none", "listen-error", "dup", "filtered"]
 # edges where the tree (as of the fix: commits 8a84c13 and 264d3f6) still departs from the property; the three repaired ones
 # ("srflxNoCloseOnReject" F-C09, "srflxWatcherCloses" F-C09b, "handoffRace" F-C18c) stay available in Gather.tla
 # edges where the tree under test still departs from the property (Gather.tla, AllDefects); VERIF_GATHER_DEFECTS overrides
